@@ -48,11 +48,11 @@ def compatible_cells(number, choice):
     returns list of (a,b,c,alpha,beta,gamma) in Angstrom / degrees
     """
     if number <= 2:
-        return [(7.0, 8.0, 9.0, 81.0, 97.0, 104.0), (5.1, 11.3, 23.7, 60.0, 65.0, 115.0)]
+        return [(7.0, 8.0, 9.0, 81.0, 97.0, 104.0), (5.1, 11.3, 23.7, 60.0, 65.0, 115.0), (6.3, 7.9, 9.1, 62.0, 131.0, 118.0)]
     if number <= 15:
         ax = monoclinic_axis(choice)
         out = []
-        for (a, b, c, ang) in ((7.0, 8.0, 9.0, 104.0), (4.9, 17.3, 11.1, 125.0)):
+        for (a, b, c, ang) in ((7.0, 8.0, 9.0, 104.0), (4.9, 17.3, 11.1, 125.0), (6.1, 7.7, 9.3, 138.0)):
             if ax == "b":
                 out.append((a, b, c, 90.0, ang, 90.0))
             elif ax == "c":
